@@ -68,9 +68,14 @@ Definition np_select_frames (idx : list nat) (b : body) : result body :=
 Definition t_select_frames (idx : list nat) (b : body) : result body :=
   if all_lt (dimn (shape (bdat b)) 0) idx
   then Ok (t_ctor (take0 dcell idx (bdat b)) (take0 (zero O) idx (bconf b))) else Err Index.
-(* tf.gather(tensor, []) : an empty Python list becomes a float32 index tensor, which gather rejects *)
+(* tf.gather(tensor, []) : an empty Python list becomes a float32 index tensor, which gather rejects.
+   select_frames (MaskedTensor.gather, tf.gather on the confidence) passes the list as it is; *)
 Definition tf_select_frames (idx : list nat) (b : body) : result body :=
   match idx with [] => Err Type_ | _ => t_select_frames idx b end.
+(* get_points goes through MaskedTensor.__getitem__, which casts the list to an int32 tensor first or not
+   ([int_cast]: a fact regenerated from tensorflow/masked/tensor.py) *)
+Definition tf_get_points (int_cast : bool) (idx : list nat) (b : body) : result body :=
+  match idx with [] => if int_cast then t_get_points idx b else Err Type_ | _ => t_get_points idx b end.
 
 (* ---- linear transforms ------------------------------------------------------------------------------------- *)
 (* flip (numpy/pose_body.py:210-228): data * vec, vec = ones(D) with vec[axis] = -1 *)
@@ -89,12 +94,12 @@ Definition madot (D E' : nat) (M : list T) (l : list cell) : list cell :=
 Definition np_matmul (E' : nat) (M : list T) (b : body) : body :=
   let s := shape (bdat b) in
   np_ctor (mkT (removelast s ++ [E']) (madot (lastd s) E' M (data (bdat b)))) (bconf b).
-(* MaskedTensor.matmul (torch/masked/tensor.py:295-310; tensorflow/masked/tensor.py:243-259): raw product, mask kept.
-   The mask keeps its shape, so only square matrices give an aligned result (C10, F16). *)
+(* MaskedTensor.matmul (torch/masked/tensor.py:295-311; tensorflow/masked/tensor.py:243-261): product of the stored
+   values; a result row is valid iff every coordinate of the point is: mask.all(dim=-1, keepdim=True).expand(result shape) *)
 Definition tdot (D E' : nat) (M : list T) (l : list cell) : list cell :=
   tab (length l / D * E') (fun k =>
     let i := k / E' in let e := k mod E' in
-    (sum O (tab D (fun d => mul O (fst (rd l (i * D + d))) (rdT M (d * E' + e)))), snd (rd l k))).
+    (sum O (tab D (fun d => mul O (fst (rd l (i * D + d))) (rdT M (d * E' + e)))), existsb snd (lane_last O D l i))).
 Definition t_matmul (E' : nat) (M : list T) (b : body) : body :=
   let s := shape (bdat b) in
   t_ctor (mkT (removelast s ++ [E']) (tdot (lastd s) E' M (data (bdat b)))) (bconf b).
@@ -170,7 +175,7 @@ Definition np_focus (b : body) : result (body * list T) :=
   if existsb snd dims || Nat.ltb D 2 then Err Type_
   else Ok (mkB (mkT s d1) (bconf b), map fst dims).
 
-(* ---- bounding boxes (numpy/pose_body.py:264-299), two-dimensional data ----------------------------------- *)
+(* ---- bounding boxes (numpy/pose_body.py:264-300) ----------------------------------- *)
 Fixpoint offsets (o : nat) (comps : list nat) : list (nat * nat) :=
   match comps with [] => [] | n :: r => (o, n) :: offsets (o + n) r end.
 (* one component: its points (rows on .. on+n of the points perspective) reduced by ma.min and ma.max over axis 0 *)
@@ -185,7 +190,7 @@ Definition np_bbox (comps : list nat) (b : body) : result body :=
   let boxes := flat_map (comp_box blk tr) (offsets 0 comps) in
   let nb := 2 * length comps in
   let new_data := transpose dcell POINTS_DIMS (mkT [nb; P; F; D] boxes) in
-  if negb (Nat.eqb D 2) then Err Value            (* np.squeeze(split(mask,[-1],3)[0], -1) needs D - 1 = 1 (F11) *)
+  if Nat.eqb D 0 then Err Index                   (* ma.getmaskarray(new_data)[:, :, :, 0] *)
   else
     let conf := mkT [F; P; nb] (tab (F * P * nb) (fun n => if snd (rd (data new_data) (n * D)) then zero O else one O)) in
     Ok (np_ctor new_data conf).
@@ -203,7 +208,7 @@ Definition chunk (w : nat) (l : list T) : list (list T) := tab (length l / w) (f
 Definition zeros_rows (n w : nat) : list (list T) := repeat (repeat (zero O) w) n.
 Definition slice {X} (a b : nat) (l : list X) : list X := firstn (b - a) (skipn a l).
 (* one track: frames = F rows of D+1 cells (coordinates, confidence); -> rows of the new track *)
-Definition interp_track (kind F NF W : nat) (steps new_steps : list T) (frames : list cell) : result (list (list T)) :=
+Definition interp_track (dflt_len : bool) (kind F NF W : nat) (steps new_steps : list T) (frames : list cell) : result (list (list T)) :=
   let cmask := tab F (fun f => snd (rd frames (f * W + (W - 1)))) in              (* frames.transpose()[-1].mask *)
   let partial_steps := map fst (filter (fun sm => negb (snd sm)) (combine steps cmask)) in
   let k := length partial_steps in
@@ -219,7 +224,8 @@ Definition interp_track (kind F NF W : nat) (steps new_steps : list T) (frames :
       let last_step := last partial_steps (zero O) in
       if is0 O first_step && eqb O last_step (one O) then Ok (f new_steps)
       else
-        let a := first_idx (fun x => leb O first_step x) new_steps 0 0 in
+        (* first_step_index defaults to 0, or to len(new_steps) ([dflt_len]: regenerated from numpy/pose_body.py) *)
+        let a := first_idx (fun x => leb O first_step x) new_steps 0 (if dflt_len then length new_steps else 0) in
         let b := first_idx (fun x => ltb O last_step x) new_steps 0 (length new_steps) in
         if Nat.eqb a b then Ok (zeros_rows (length new_steps) W)
         else
@@ -232,10 +238,10 @@ Definition track_cells (F D : nat) (tr : list cell) (ctr : list T) (tp : nat) : 
   tab (F * S D) (fun k =>
     let f := k / S D in let j := k mod S D in
     if Nat.eqb j D then let c := rdT ctr (tp * F + f) in (c, is0 O c) else rd tr ((tp * F + f) * D + j)).
-Definition interp_tracks (kind F NF D : nat) (steps new_steps : list T) (tr : list cell) (ctr : list T) (n : nat)
+Definition interp_tracks (dflt_len : bool) (kind F NF D : nat) (steps new_steps : list T) (tr : list cell) (ctr : list T) (n : nat)
   : result (list (list (list T))) :=
-  rmapM (fun tp => interp_track kind F NF (S D) steps new_steps (track_cells F D tr ctr tp)) (seq 0 n).
-Definition np_interpolate (kind NF : nat) (b : body) : result body :=
+  rmapM (fun tp => interp_track dflt_len kind F NF (S D) steps new_steps (track_cells F D tr ctr tp)) (seq 0 n).
+Definition np_interpolate (dflt_len : bool) (kind NF : nat) (b : body) : result body :=
   let s := shape (bdat b) in
   let F := dimn s 0 in let P := dimn s 1 in let Tn := dimn s 2 in let D := dimn s 3 in
   let W := S D in
@@ -245,7 +251,7 @@ Definition np_interpolate (kind NF : nat) (b : body) : result body :=
     let new_steps := linspace NF in
     let tr := data (transpose dcell POINTS_DIMS (bdat b)) in                               (* (T,P,F,D) *)
     let ctr := data (transpose (zero O) CONF_RESHAPE (bconf b)) in                        (* (T,P,F) *)
-    match interp_tracks kind F NF D steps new_steps tr ctr (Tn * P) with
+    match interp_tracks dflt_len kind F NF D steps new_steps tr ctr (Tn * P) with
     | Err e => Err e
     | Ok tracks =>
         let L := length (hd [] tracks) in
